@@ -4,13 +4,18 @@ from stmtpipe import run_prop
 from common import log
 RULE = ("statements as for C01 restricted by Portable(s) (feature subset common to MySQL, PostgreSQL and SQLite); TLC transliterates the MySQL and PostgreSQL renderings token by token into SQLite spelling "
         "(identifier quotes, literals, placeholders, set-operation parentheses, ROW(..), IFNULL/COALESCE, GREATEST/MAX, LEAST/MIN, CHAR_LENGTH/LENGTH, RAND/RANDOM) and requires token equality with the SQLite rendering; "
-        "the three texts (inline, and parameterised with the bound values) are executed on the real SQLite over the fixture and must return the same rows and table contents — this is what checks MySQL's NULLS FIRST/LAST emulation; non-trivial = at least two bound values")
+        "each rendering is also parsed with its own dialect's clause grammar and precedence table (EngineGrammar) and must denote the statement built; the three texts (inline, and parameterised with the bound values) are executed on the real SQLite over the fixture and must return the same rows and table contents — this is what checks MySQL's NULLS FIRST/LAST emulation; non-trivial = at least two bound values")
 st = {"portable": 0, "executed": 0, "agree": 0, "not_executable": 0}
 def per_record(r, v):
     c = v.get("c09", {})
     if not c.get("portable"): return []
     st["portable"] += 1
     out = []
+    # each rendering must denote, under its OWN dialect's grammar and precedence table, the statement that was built
+    # (SQLite as the execution proxy cannot see a difference that only another engine's precedence makes)
+    for k in v.get("keys", []):
+        if (k.startswith("C07/") or k.startswith("C08/")) and ("clause_differs" in k):
+            out.append("C09/%s/denotes_a_different_statement_under_its_own_grammar:%s" % (k.split("/")[1], k.split(":")[-1]))
     if not c["pg_tokens_equal"]: out.append("C09/pg/differs_from_sqlite_beyond_lexical_spelling")
     if not c["mysql_tokens_equal"]: out.append("C09/mysql/differs_from_sqlite_beyond_lexical_spelling")
     ordered = bool(v.get("ordered"))
@@ -33,6 +38,9 @@ def per_record(r, v):
             if Z[0] == "err":
                 if Z[1] == "syntax":
                     out.append("C09/%s/transliteration_rejected_by_sqlite/%s" % (B, name))
+                elif name == "parameterised" and X[0] == "ok" and "binding" in Z[2].lower():
+                    # the inline form runs, the parameterised one cannot even be bound: placeholders and values do not correspond
+                    out.append("C09/%s/parameterised_form_not_bindable" % B)
                 ok = False      # otherwise: a restriction of the SQLite proxy (e.g. expression ORDER BY terms in a compound select), not decidable here
             elif not (Z[2] == S[2] and (Z[1] == S[1] or sorted(Z[1], key=repr) == sorted(S[1], key=repr) and not (ordered and c.get("nulls")))):
                 out.append("C09/%s/rows_differ_from_sqlite/%s" % (B, name)); ok = False
@@ -42,5 +50,5 @@ def run(tier, replay_path=None):
     return run_prop("C09", tier, replay_path, ["C09/"], RULE,
                     ["SQLite 3.40.1 executes the transliterated MySQL / PostgreSQL texts: semantics specific to the other engines (collations, integer division, type coercions) are not observed",
                      "Portable(s) in Portable.tla defines the common feature subset"],
-                    per_record=per_record, portable=True,
+                    per_record=per_record, portable=True, grammar=True,
                     extra_cov=lambda: {"portable_statements": st["portable"], "executed_triples": st["executed"], "triples_agree": st["agree"], "not_executable": st["not_executable"]})
